@@ -78,7 +78,7 @@ def rule_r1(ctx: Ctx) -> None:
     _LOG_ONLY.update(_find_log_only(ctx.repo))
     UNORDERED_HELPERS.clear()
     scope = set(repo.with_satellites(MODS))
-    funcs = [f for f in repo.all_functions().values() if f.module.name in scope]
+    funcs = [_loops_normalised(f) for f in repo.all_functions().values() if f.module.name in scope]
     # interprocedural seed: parameters that receive unordered arguments
     tainted_params: Dict[str, Set[str]] = {}
     results: List[Tuple[FuncInfo, str, bool, str, ast.AST]] = []
@@ -87,6 +87,8 @@ def rule_r1(ctx: Ctx) -> None:
         results = []
         n_sources = 0
         for fn in funcs:
+            if fn.name in _LOG_ONLY and fn.cls is None:
+                continue  # computes log text only: no result depends on it
             tainted: Set[str] = set(tainted_params.get(fn.qualname, set()))
             for a in fn.node.args.args + fn.node.args.kwonlyargs:
                 if _annot_is_set(a.annotation):
@@ -315,6 +317,27 @@ def _find_log_only(repo: Any) -> Set[str]:
         body = body_without_docstring(fn.node)
         if body and all(isinstance(st, ast.Expr) and isinstance(st.value, ast.Call) and (dotted(st.value.func) or "").startswith(LOG_PREFIXES) for st in body):
             out.add(fn.name)
+    # a private function every call of which is (part of) an argument of a logging call computes log text only
+    sites: Dict[str, List[bool]] = {}
+    for fn in repo.all_functions().values():
+        if fn.name.startswith("_unittest"):
+            continue
+        pm = parents_map(fn.node)
+        for n in ast.walk(fn.node):
+            if isinstance(n, ast.Call) and isinstance(n.func, ast.Name) and n.func.id.startswith("_") and not n.func.id.startswith("__"):
+                cur: Any = n
+                in_log = False
+                while cur in pm:
+                    cur = pm[cur]
+                    if isinstance(cur, ast.Call) and (dotted(cur.func) or "").startswith(LOG_PREFIXES):
+                        in_log = True
+                        break
+                    if isinstance(cur, ast.stmt):
+                        break
+                sites.setdefault(n.func.id, []).append(in_log)
+    for name, flags in sites.items():
+        if flags and all(flags) and any(f.name == name and f.cls is None for f in repo.all_functions().values()):
+            out.add(name)
     return out
 
 
@@ -713,6 +736,28 @@ def rule_r8_normalize(ctx: Ctx) -> None:
     if [str(x) for x in caller_list] != [str(x) for x in items] or len(caller_list) != len(items):
         bad.append({"argument": "a list", "found": "the caller's list was modified: %r" % caller_list})
     ctx.check(not bad, fn.short, "%d argument shapes" % len(cases), "the result depends on the paths given - not on the kind of iterable, on duplicates or on str / Path spelling", fn.where(), bad[:4])
+
+
+_NORMALISED: Dict[str, Any] = {}
+
+
+def _loops_normalised(fn: Any) -> Any:
+    """the function with hand-written walks over a collection (index / iterator / sentinel loops) spelled as `for` loops, which
+    is the form the order analysis reads (see sa/loopnorm.py; the relaxed form also reads `next(it, None)` loops)"""
+    import copy as _copy
+
+    from ..loopnorm import normalize_loops
+
+    k = fn.qualname + "@" + str(id(fn.node))
+    if k not in _NORMALISED:
+        node = _copy.deepcopy(fn.node)
+        if normalize_loops(node, relaxed=True):
+            f2 = _copy.copy(fn)
+            f2.node = node
+            _NORMALISED[k] = f2
+        else:
+            _NORMALISED[k] = fn
+    return _NORMALISED[k]
 
 
 def rule_r9_ambient(ctx: Ctx) -> None:
